@@ -290,10 +290,55 @@ fn read_archive(path: &std::path::Path, inp: &Value, stored: Vec<Value>) -> Valu
     }
     // unknown digest
     let unknown = ommx::ocipkg::Digest::new("sha256:0000000000000000000000000000000000000000000000000000000000000000").unwrap();
-    let unk = guarded(|| json!({
-        "instance": art.get_instance(&unknown).is_err(), "parametric": art.get_parametric_instance(&unknown).is_err(),
-        "solution": art.get_solution(&unknown).is_err(), "sample_set": art.get_sample_set(&unknown).is_err(),
-        "layer": art.get_layer(&unknown).is_err()}));
+    // ... and near misses of every stored digest: a truncated / abbreviated encoded part (tail, head, the empty string),
+    // another algorithm, one changed character, a doubled encoded part. None of them names a stored layer.
+    let mut probes = vec![unknown];
+    for l in &layers {
+        let full = l["digest"].as_str().unwrap_or("");
+        if let Some((alg, hex)) = full.split_once(':') {
+            let n = hex.len();
+            let mut cands: Vec<String> = vec![];
+            if n >= 8 {
+                cands.push(format!("{alg}:{}", &hex[n - 8..]));
+                cands.push(format!("{alg}:{}", &hex[n - 1..]));
+                cands.push(format!("{alg}:{}", &hex[..8]));
+                cands.push(format!("{alg}:{}", &hex[1..]));
+                cands.push(format!("{alg}:{}", &hex[..n - 1]));
+                cands.push(format!("sha512:{hex}"));
+                cands.push(format!("{alg}:{hex}{hex}"));
+                cands.push(format!("{alg}:0{hex}"));
+                let last = if hex.ends_with('0') { '1' } else { '0' };
+                cands.push(format!("{alg}:{}{last}", &hex[..n - 1]));
+                let first = if hex.starts_with('0') { '1' } else { '0' };
+                cands.push(format!("{alg}:{first}{}", &hex[1..]));
+            }
+            let stored: Vec<&str> = layers.iter().filter_map(|x| x["digest"].as_str()).collect();
+            for c in cands {
+                if stored.contains(&c.as_str()) {
+                    continue;
+                }
+                if let Ok(d) = ommx::ocipkg::Digest::new(&c) {
+                    probes.push(d);
+                }
+            }
+        }
+    }
+    let unk = guarded(|| {
+        let mut all = json!({"instance": true, "parametric": true, "solution": true, "sample_set": true, "layer": true});
+        for unknown in &probes {
+            let one = json!({
+                "instance": art.get_instance(unknown).is_err(), "parametric": art.get_parametric_instance(unknown).is_err(),
+                "solution": art.get_solution(unknown).is_err(), "sample_set": art.get_sample_set(unknown).is_err(),
+                "layer": art.get_layer(unknown).is_err()});
+            for k in ["instance", "parametric", "solution", "sample_set", "layer"] {
+                if one[k] != json!(true) {
+                    all[k] = json!(false);
+                }
+            }
+        }
+        all["probes"] = json!(probes.len());
+        all
+    });
     let by_type = |art: &mut Artifact<ommx::ocipkg::image::OciArchive>, m| -> Value {
         match art.get_layer_descriptors(&m) {
             Ok(v) => json!(v.iter().map(|d| d.digest().to_string()).collect::<Vec<_>>()),
